@@ -101,6 +101,8 @@ func (a Action) describe(e *Engine) string {
 		return fmt.Sprintf("DEV byzantine %s -> %s", e.msgs.get(a.Msg).Key, maskStr(a.Mask))
 	case 'B':
 		return fmt.Sprintf("DEV byzantine +2/3-claim and %s -> %s", e.msgs.get(a.Msg).Key, maskStr(a.Mask))
+	case '|':
+		return "--- synchronous continuation (byzantine validator silent, full gossip) ---"
 	case 'r':
 		return fmt.Sprintf("DEV release dropped %s -> n%d", e.msgs.get(a.Msg).Key, a.Slot)
 	}
@@ -155,7 +157,9 @@ type Search struct {
 	hist  map[string]int64
 
 	pmu   sync.Mutex
-	pmemo map[pkey]bool
+	pmemo map[pkey]pval // states from which the continuation is known to reach the goal: remaining steps, max round
+
+	samples []leafSample
 
 	menuMu sync.Mutex
 	menu   map[string][]*Msg
@@ -170,12 +174,13 @@ type pedge struct {
 type Found struct {
 	Key    string
 	Detail string
-	Trace  []string
-	state  *GState
+	Trace  []Action // the schedule from the initial state; Kind '|' marks the start of the synchronous continuation
+	state  *GState  // the global state in which the violation was observed (after the last action)
+	silent bool     // scenario without the byzantine validator running honest code
 }
 
 func newSearch(e *Engine, p Params, r interface{ Expired() bool }) *Search {
-	return &Search{e: e, p: p, r: r, visited: map[gkey]int8{}, parent: map[gkey]pedge{}, viols: map[string]*Found{}, hist: map[string]int64{}, pmemo: map[pkey]bool{}, menu: map[string][]*Msg{}}
+	return &Search{e: e, p: p, r: r, visited: map[gkey]int8{}, parent: map[gkey]pedge{}, viols: map[string]*Found{}, hist: map[string]int64{}, pmemo: map[pkey]pval{}, menu: map[string][]*Msg{}}
 }
 
 func (s *Search) outcome(c string) {
@@ -262,7 +267,7 @@ func (s *Search) candidates(g *GState, pool []*Msg, gossip bool, firstOnly bool,
 			if l == nil || l.obs.Dead != "" || len(l.obs.Committed) >= freeze {
 				continue
 			}
-			if i == from && !gossip {
+			if i == from && (!gossip || m.Kind == 'M') {
 				continue
 			}
 			if g.withheld(m.id, i) {
@@ -343,30 +348,48 @@ func classLabel(l string) string {
 	return l
 }
 
-func (s *Search) report(g *GState, k gkey, v Viol, extra []string) {
+// report records a violation observed in state g, reached from the visited state k by the actions extra.
+func (s *Search) report(g *GState, k gkey, v Viol, extra []Action) {
+	tr := append(s.trace(k), extra...)
 	s.vmu.Lock()
 	defer s.vmu.Unlock()
 	if f, ok := s.viols[v.Key]; ok {
-		// keep the shortest / canonically smallest witness
-		tr := append(s.trace(k), extra...)
-		if len(tr) < len(f.Trace) {
+		// keep the shortest witness (ties: the canonically smallest description)
+		if len(tr) < len(f.Trace) || (len(tr) == len(f.Trace) && s.describe(tr) < s.describe(f.Trace)) {
 			f.Trace, f.Detail, f.state = tr, v.Detail, g.clone()
 		}
 		return
 	}
-	s.viols[v.Key] = &Found{Key: v.Key, Detail: v.Detail, Trace: append(s.trace(k), extra...), state: g.clone()}
+	s.viols[v.Key] = &Found{Key: v.Key, Detail: v.Detail, Trace: tr, state: g.clone(), silent: !s.p.byzHonest}
 }
 
-func (s *Search) trace(k gkey) []string {
+func (s *Search) describe(tr []Action) string {
+	var sb strings.Builder
+	for _, a := range tr {
+		sb.WriteString(a.describe(s.e))
+		sb.WriteByte(';')
+	}
+	return sb.String()
+}
+
+func (s *Search) describeList(tr []Action) []string {
+	out := make([]string, len(tr))
+	for i, a := range tr {
+		out[i] = a.describe(s.e)
+	}
+	return out
+}
+
+func (s *Search) trace(k gkey) []Action {
 	s.mu.Lock()
 	defer s.mu.Unlock()
-	var rev []string
+	var rev []Action
 	for {
 		pe, ok := s.parent[k]
 		if !ok || pe.root {
 			break
 		}
-		rev = append(rev, pe.act.describe(s.e))
+		rev = append(rev, pe.act)
 		k = pe.from
 	}
 	for i, j := 0, len(rev)-1; i < j; i, j = i+1, j-1 {
@@ -586,6 +609,7 @@ func (s *Search) expand(g *GState, k gkey, layer int, next *[]entry) (*GState, A
 			s.leaf(g, k)
 		} else {
 			s.leaves.Add(1)
+			s.sampleLeaf(g, k)
 		}
 		return nil, Action{}, false
 	}
@@ -616,7 +640,7 @@ func (s *Search) expand(g *GState, k gkey, layer int, next *[]entry) (*GState, A
 	ng := g.clone()
 	bad := s.move(ng, int(def.Slot), defEdge)
 	for _, b := range bad {
-		s.report(ng, k, b, []string{def.describe(s.e)})
+		s.report(ng, k, b, []Action{def})
 	}
 	return ng, def, true
 }
@@ -624,7 +648,7 @@ func (s *Search) expand(g *GState, k gkey, layer int, next *[]entry) (*GState, A
 func (s *Search) push(next *[]entry, g *GState, from gkey, act Action, bad []Viol) {
 	s.transitions.Add(0)
 	for _, b := range bad {
-		s.report(g, from, b, []string{act.describe(s.e)})
+		s.report(g, from, b, []Action{act})
 	}
 	if s.seen(g.key()) {
 		return
@@ -791,7 +815,7 @@ func (s *Search) run(par func(n int, f func(i int))) {
 			var local []entry
 			for n := 0; ; n++ {
 				if n > 3000 {
-					panic("default schedule does not terminate: " + strings.Join(s.trace(k), " ; "))
+					panic("default schedule does not terminate: " + s.describe(s.trace(k)))
 				}
 				if s.p.maxStates > 0 && s.states.Load() >= s.p.maxStates {
 					s.capped.Store(true)
@@ -858,12 +882,38 @@ type pkey struct {
 	limit int
 }
 
+type pval struct {
+	rem      int
+	maxRound int
+}
+
+type leafSample struct {
+	canon string
+	k     gkey
+	g     *GState
+}
+
+func (s *Search) sampleLeaf(g *GState, k gkey) {
+	c := g.canon(s.e)
+	s.vmu.Lock()
+	defer s.vmu.Unlock()
+	if len(s.samples) >= 6 && c >= s.samples[len(s.samples)-1].canon {
+		return
+	}
+	s.samples = append(s.samples, leafSample{c, k, g.clone()})
+	sort.Slice(s.samples, func(a, b int) bool { return s.samples[a].canon < s.samples[b].canon })
+	if len(s.samples) > 6 {
+		s.samples = s.samples[:6]
+	}
+}
+
 func (s *Search) leaf(g *GState, k gkey) {
 	s.leaves.Add(1)
+	s.sampleLeaf(g, k)
 	if s.p.progR <= 0 {
 		return
 	}
-	res, rounds, tail := s.progress(g)
+	res, rounds, tail, fin := s.progress(g)
 	if rounds > int(s.maxProgRounds.Load()) {
 		s.maxProgRounds.Store(int64(rounds))
 	}
@@ -872,14 +922,14 @@ func (s *Search) leaf(g *GState, k gkey) {
 		s.outcome("progress:ok")
 	default:
 		s.outcome("progress:" + res)
-		s.report(g, k, Viol{"progress:" + res, fmt.Sprintf("synchronous continuation with full gossip from this state: %s", res)}, append([]string{"--- synchronous continuation ---"}, tail...))
+		s.report(fin, k, Viol{"progress:" + res, fmt.Sprintf("synchronous continuation with full gossip from this state: %s", res)}, append([]Action{{Kind: '|'}}, tail...))
 	}
 }
 
 // progress continues synchronously (byzantine validator silent, everything held by anyone gossiped to everyone, +2/3
 // claims included, timeouts only when nothing is deliverable) until every honest node has committed one more height
 // than the most advanced honest node had at the leaf.
-func (s *Search) progress(leaf *GState) (string, int, []string) {
+func (s *Search) progress(leaf *GState) (string, int, []Action, *GState) {
 	s.progChecks.Add(1)
 	g := &GState{loc: leaf.loc}
 	g.loc[3] = nil
@@ -898,10 +948,13 @@ func (s *Search) progress(leaf *GState) (string, int, []string) {
 	}
 	limit := r0 + s.p.progR
 	var path []pkey
-	var tail []string
+	var tail []Action
 	result := ""
 	maxRound := r0
+	memoRem := 0
+	nsteps := 0
 	for steps := 0; ; steps++ {
+		nsteps = steps
 		pk := pkey{goal: goal, limit: limit}
 		for i, l := range g.loc {
 			if l == nil {
@@ -911,10 +964,14 @@ func (s *Search) progress(leaf *GState) (string, int, []string) {
 			}
 		}
 		s.pmu.Lock()
-		ok, known := s.pmemo[pk]
+		pv, known := s.pmemo[pk]
 		s.pmu.Unlock()
-		if known && ok {
+		if known {
 			result = "ok"
+			memoRem = pv.rem
+			if pv.maxRound > maxRound {
+				maxRound = pv.maxRound
+			}
 			break
 		}
 		path = append(path, pk)
@@ -963,24 +1020,152 @@ func (s *Search) progress(leaf *GState) (string, int, []string) {
 			break
 		}
 		g.loc[act.Slot] = ed.to
-		s.progSteps.Add(1)
-		s.transitions.Add(1)
-		if len(tail) < 400 {
-			tail = append(tail, act.describe(s.e))
-		}
+		tail = append(tail, act)
 		for _, b := range ed.bad {
-			s.report(g, leaf.key(), b, append(append([]string{"--- synchronous continuation ---"}, tail...)))
+			s.report(g, leaf.key(), b, append([]Action{{Kind: '|'}}, tail...))
 		}
 	}
+	if result != "ok" {
+		// diagnose the stuck state for a specific, stable violation key
+		for _, i := range s.honestSlots() {
+			o := g.loc[i].obs
+			if len(o.Committed) < goal && o.CommitRound >= 0 && o.Step != cstypes.RoundStepCommit && o.Dead == "" {
+				result += ":pending-commit-abandoned"
+				break
+			}
+		}
+	}
+	// the continuation from a state is deterministic: count its full length even when the memo cut it short
+	total := int64(nsteps + memoRem)
+	s.progSteps.Add(total)
+	s.transitions.Add(total)
 	if result == "ok" {
 		s.pmu.Lock()
-		for _, pk := range path {
-			s.pmemo[pk] = true
+		for i, pk := range path {
+			s.pmemo[pk] = pval{rem: int(total) - i, maxRound: maxRound}
 		}
 		s.pmu.Unlock()
-		return "ok", maxRound - r0, nil
+		return "ok", maxRound - r0, nil, g
 	}
-	return result, maxRound - r0, tail
+	return result, maxRound - r0, tail, g
 }
 
 func timeIota(h int64) time.Duration { return time.Duration(h) * 100 * time.Millisecond }
+
+// ---------------------------------------------------------------------------------------------------------------
+// (1) breadth-first search over ALL delivery orders (height 1, rounds <= maxR), depth-capped
+
+type BFSResult struct {
+	States, Transitions int64
+	Levels              []int64
+	Closed              bool
+	Depth               int
+}
+
+// bfs explores every interleaving of: delivery of any published message, any byzantine menu message (proposals A, B,
+// B with an invalid POL round, prevotes / precommits for every known block and nil at rounds 0..maxR, +2/3 claims for
+// the same), any +2/3 claim an honest node can make, to any honest node; and any pending timeout. Loss = never
+// delivered; duplication / re-delivery = delivering again (mostly no-ops, which are self loops).
+func (s *Search) bfs(depth int, stride int, par func(n int, f func(i int))) BFSResult {
+	var res BFSResult
+	g0 := &GState{}
+	for i := 0; i < 3; i++ {
+		g0.loc[i] = s.e.root(i)
+	}
+	s.claim(g0.key(), 0, pedge{root: true})
+	frontier := []*GState{g0}
+	res.States = 1
+	sys := s.e.sys
+	for d := 0; d < depth && len(frontier) > 0; d++ {
+		var mu sync.Mutex
+		var next []*GState
+		var trans atomic.Int64
+		par(len(frontier), func(fi int) {
+			g := frontier[fi]
+			k := g.key()
+			pool := s.pool(g, false)
+			items := append([]*Msg{}, pool...)
+			menu := s.byzMenu(g, pool, s.p.maxR)
+			items = append(items, menu...)
+			for _, m := range menu {
+				if m.Kind == 'V' {
+					items = append(items, s.e.msgs.intern(sys.claimMsg(sys.byz, m.H, m.R, m.T, m.BID, true)))
+				}
+			}
+			for i := 0; i < 3; i++ {
+				items = append(items, g.loc[i].obs.Claims...)
+			}
+			var local []*GState
+			try := func(slot int, in int32, act Action) {
+				l := g.loc[slot]
+				ed := s.e.step(l, in)
+				if ed.noop {
+					return
+				}
+				trans.Add(1)
+				ng := &GState{loc: g.loc}
+				ng.loc[slot] = ed.to
+				nk := ng.key()
+				for _, b := range ed.bad {
+					s.report(ng, k, b, []Action{act})
+				}
+				if !s.claim(nk, 0, pedge{from: k, act: act}) {
+					return
+				}
+				if v := s.agreement(ng); v != nil {
+					s.report(ng, nk, *v, nil)
+				}
+				local = append(local, ng)
+			}
+			for slot := 0; slot < 3; slot++ {
+				l := g.loc[slot]
+				if l.obs.Dead != "" || len(l.obs.Committed) >= 1 || l.obs.R > s.p.maxR {
+					continue // frozen: committed height 1 or beyond the round bound
+				}
+				for _, m := range items {
+					if s.e.vals[slot] == m.From {
+						continue
+					}
+					kind := byte('d')
+					if m.Byz {
+						kind = 'b'
+					}
+					a := Action{Kind: kind, Msg: m.id, Slot: int8(slot), Mask: 1 << slot}
+					try(slot, m.id, a)
+				}
+				if l.obs.TOPending {
+					try(slot, inTimeout, Action{Kind: 't', Slot: int8(slot)})
+				}
+			}
+			mu.Lock()
+			next = append(next, local...)
+			mu.Unlock()
+		})
+		res.Transitions += trans.Load()
+		s.transitions.Add(trans.Load())
+		if s.r.Expired() {
+			s.capped.Store(true)
+			res.Depth = d
+			res.Levels = append(res.Levels, int64(len(next)))
+			res.States += int64(len(next))
+			s.states.Add(int64(len(next)))
+			return res
+		}
+		sort.Slice(next, func(a, b int) bool { return next[a].canonLess(next[b]) })
+		res.Levels = append(res.Levels, int64(len(next)))
+		res.States += int64(len(next))
+		s.states.Add(int64(len(next)))
+		frontier = next
+		res.Depth = d + 1
+	}
+	res.Closed = len(frontier) == 0
+	// bounded progress from the states of the last level (every stride-th in canonical order)
+	if stride > 0 && s.p.progR > 0 {
+		var sel []*GState
+		for i := 0; i < len(frontier); i += stride {
+			sel = append(sel, frontier[i])
+		}
+		par(len(sel), func(i int) { s.leaf(sel[i], sel[i].key()) })
+	}
+	return res
+}
